@@ -353,6 +353,24 @@ def rule_r4(ctx, rid="C06.R4"):
     # class used per handler
     for h in [n for n in g.nodes if n.kind == "handler"]:
         cls = resolve_handler_classes(p, f, h.ast) or set()
+        st = [s for s in stores if any(x is s.ast for x in ast.walk(h.ast))]
+        if "ParsingError" in cls and "TransferEncodingNotImplemented" in cls:
+            # one handler for both classes: inside it the stores are told apart by isinstance tests on the exception
+            ev = h.ast.name
+            got = {}
+            for s0 in st:
+                for (t, pol) in guards_of(g, s0):
+                    if isinstance(t, ast.Call) and dotted(t.func) == "isinstance" and len(t.args) == 2 and dotted(t.args[0]) == ev:
+                        k = (dotted(t.args[1]) or "").split(".")[-1]
+                        if k in ("ParsingError", "TransferEncodingNotImplemented"):
+                            which = k if pol else ("TransferEncodingNotImplemented" if k == "ParsingError" else "ParsingError")
+                            got[which] = norm(s0.ast.value)
+            ok2 = "BadRequest" in got.get("ParsingError", "") and "ServerNotImplemented" in got.get("TransferEncodingNotImplemented", "")
+            if ok2:
+                ctx.r.ok(rid, "ParsingError -> BadRequest, TransferEncodingNotImplemented -> ServerNotImplemented (one handler, isinstance dispatch)", f.loc(h.ast))
+            else:
+                ctx.r.violation(rid, key_of(f, None, "wrong-error-class::combined"), "the combined handler for %s does not store BadRequest for ParsingError and ServerNotImplemented for TransferEncodingNotImplemented (found: %s)" % (sorted(cls), got), f.loc(h.ast))
+            continue
         want = None
         if "ParsingError" in cls:
             want = "BadRequest"
@@ -360,7 +378,6 @@ def rule_r4(ctx, rid="C06.R4"):
             want = "ServerNotImplemented"
         if want is None:
             continue
-        st = [s for s in stores if any(x is s.ast for x in ast.walk(h.ast))]
         if st and all(want in norm(s.ast.value) for s in st):
             ctx.r.ok(rid, "%s is converted to %s" % (sorted(cls)[0], want), f.loc(h.ast))
         else:
